@@ -562,7 +562,7 @@ def load_in_memory_count(crate):
             the_map["oid"] = m.oid
             st_.events.append(("await", name, fargs, r))
             return [(S.poll_ready(dty, r), None)]
-        return None
+        return S.tag_reads_hook(ex_, st_, name, fargs, out_ty, dty)      # read_meta: tagged raw error (classification check)
     ex.await_hook = hook
     outs = P.drive_async(ex, st, fn, [Ref(ic, (), True, "&mut IndexStruct<FileIndex, K>"), Obj("FileIndex"), Sym(z3.BitVec("blob_size", 64), "u64")])
     res.paths = len(outs)
